@@ -26,6 +26,7 @@ import Driver.SessionState
 import Driver.SM2Codec
 import Driver.P256Limbs
 import Driver.TLSMessages
+import Driver.HMACModel
 open Gmsm
 
 def dispatch (toks : List String) : String :=
@@ -80,6 +81,9 @@ def dispatch (toks : List String) : String :=
     match Driver.tlsMessagesDispatch toks with
     | some r => r
     | none =>
+    match Driver.hmacModelDispatch toks with
+    | some r => r
+    | none =>
     match toks with
     | "sm4hist" :: rest => Driver.sm4hist rest
     | "sm3hist" :: rest => Driver.sm3hist rest
@@ -91,6 +95,8 @@ def dispatch (toks : List String) : String :=
     | "p7rt8" :: rest => Driver.p7rt8Model rest
     | "recwrite" :: rest => Driver.recwrite rest
     | "recread" :: rest => Driver.recread rest
+    | "recwrites" :: rest => Driver.recwrites rest
+    | "recreads" :: rest => Driver.recreads rest
     | "expad" :: rest => Driver.expad rest
     | "chain" :: rest => Driver.chain rest
     | _ => "bad-op"
